@@ -587,7 +587,7 @@ func shrinkInChildren(p *props.Property, v *report.Violation, repo string) (*rep
 	if probeChild(p, v.Tier, repo, v.Invariant, v.Tape) == nil {
 		return nil, fmt.Sprintf("NONDETERMINISTIC: case %d of %s fired %s (%s) but its tape does not reproduce it in a fresh process", v.Case, p.ID, v.Invariant, v.Message)
 	}
-	shrunk, evals := tape.Shrink(v.Tape, func(c []uint64) bool { return probeChild(p, v.Tier, repo, v.Invariant, c) != nil }, 400, 90*time.Second)
+	shrunk, evals := tape.Shrink(v.Tape, func(c []uint64) bool { return probeChild(p, v.Tier, repo, v.Invariant, c) != nil }, 1500, 240*time.Second)
 	fv := probeChild(p, v.Tier, repo, v.Invariant, shrunk)
 	if fv == nil {
 		fv, shrunk = probeChild(p, v.Tier, repo, v.Invariant, v.Tape), v.Tape
